@@ -276,6 +276,16 @@ fn history(c: &mut Case) {
             if requested.is_none() && cur.is_some() && !c.rng.chance(1, 8) {
                 continue;
             }
+            // a third of the selections come after the usual read-loop tidy-up (everything consumed,
+            // buffer compacted): set_stream then finds a fully compacted, empty buffer
+            if c.rng.chance(1, 3) {
+                let len = d.shadow_stream.len();
+                if len > 0 {
+                    d.consume_stream(len);
+                }
+                d.compress();
+                c.l.count("selections_after_consume_all_and_compress");
+            }
             let mid_record = !d.parser().is_record_boundary();
             let buffered = d.shadow_stream.clone();
             let r = d.set_stream(requested);
